@@ -176,9 +176,7 @@ mutual
         if type = S "while" then pure (S "repeat while " ++ cs ++ S "\n")
         else if type = S "for" then do
           let a ← lingo false start 0
-          let b ← match cond with
-            | .binary _ _ _ r => lingo false r 0     -- ro.end is cond.right (same object)
-            | _ => .error .type
+          let b ← lingoRight cond                    -- ro.end is cond.right (same object)
           pure (S "repeat with " ++ varname.str ++ S " = " ++ a.str ++ S " " ++
                 (if _sign = S "+" then S "to" else S "down to") ++ S " " ++ b.str ++ S "\n")
         else do
@@ -199,6 +197,11 @@ mutual
       let o ← lingo false operand 0
       let body ← lingoStmts stmts (ind + 1)
       pure (.s (S "tell " ++ o.str ++ S "\n" ++ body ++ indentOf ind ++ S "end tell"))
+
+  /-- `ro.end.generate_lingo(0)` where `ro.end` is `ro.condition.right` -/
+  def lingoRight : Node → R Name
+    | .binary _ _ _ r => lingo false r 0
+    | _ => .error .type
 
   /-- `[str(s.generate_lingo(ind)) for s in l]`; with `gv`, the last element is first passed through gv_as_sym -/
   def lingoStrs (gv : Bool) : List Node → Nat → R (List Str)
